@@ -21,6 +21,19 @@ pin_project! {
     }
 }
 
+#[cfg(futures_buffered_verif)]
+impl<St> BufferedOrdered<St>
+where
+    St: Stream,
+    St::Item: Future,
+{
+    /// See [`FuturesOrderedBounded::__verif_set_position`]. Verification harness only.
+    #[doc(hidden)]
+    pub fn __verif_set_position(&mut self, start: usize) {
+        self.in_progress_queue.__verif_set_position(start);
+    }
+}
+
 impl<St> Stream for BufferedOrdered<St>
 where
     St: Stream,
